@@ -55,7 +55,7 @@ def run(res, tier):
     res.assumptions += [
         "W is the RECORDED wake potential (what the wake kick applies): the check decides sign and strength of the collective kick relative to RF focusing and the step angle, "
         "not the wake's relation to the impedance (C06, C10)",
-        "finite horizon of 10 damping times; impedances below threshold; cases with D < 0.05 are run but counted as trivial",
+        "finite horizon of 10 damping times; impedances far below threshold: a case that has not become stationary by then (profile change > 2e-3 of the peak between the last records) is reported under its own key; cases with D < 0.05 are run and judged but counted as trivial",
         "bound on the residual spread: 0.003 + 2.5*e1 + 0.02*D with e1 the per-step damping decrement (floor calibrated on the unchanged tree: 1.0-1.25*e1 + 0.002*D, safety factor 2-3; a sign error gives about 2D, a factor 2 in strength about D); explicit scheme within its stable range e1/cell^2 <= 1/2"]
     exe = pl.build.build_bin("plain")
     wd = pl.workdir("c05")
@@ -73,13 +73,16 @@ def run(res, tier):
                             if 2.0 / (td * mode[1]) / d2 > 0.5:
                                 continue      # outside the explicit Fokker-Planck scheme's stable range (e1/cell^2 <= 1/2)
                             cases.append((imp, cur, n, mode, td, zoom, ()))
-    pl.warm(exe, [["-s", n, "-N", 8, "-T", 0.125, "--padding", 4] + IMPS["collimator"] for n in ns], "c05warm")
+    pl.warm(exe, [["-s", n, "-N", 8, "-T", 0.125, "--padding", 4] + IMPS["collimator"] for n in ns + [65]], "c05warm")
     # single deviations of the numerical options from the base run (collimator, middle current): each must leave the relation intact
     DEV = [["--InterpolationPoints", 3], ["--derivation", 3], ["--PhaseSpaceSize", 10], ["--PhaseSpaceShiftX", 2], ["--PhaseSpaceShiftY", -2], ["--alpha0", 3.5e-3],
            ["--RenormalizeCharge", 5], ["--LinearRF", "false"], ["--padding", 2], ["--InterpolationPoints", 3, "--derivation", 3]]
     devs = DEV if tier == "thorough" else DEV[:6]
     for dv in devs:
         cases.append(("collimator", CURRENTS["collimator"][1], 64, ("Ts", 128), 2.0, 1.2, tuple(dv)))
+    # an odd grid size (every impedance once in the thorough tier)
+    for imp in (list(IMPS) if tier == "thorough" else ["collimator"]):
+        cases.append((imp, CURRENTS[imp][1], 65, ("Ts", 128), 2.0, 1.2, ()))
     # many steps per period (the program's default is 1000): the wake changes very little from step to step; start far from equilibrium
     for imp in (("collimator", "wall") if tier == "thorough" else ("collimator",)):
         cases.append((imp, CURRENTS[imp][1], 64, ("Ts", 1000), 2.0, 2.0, ()))
@@ -119,9 +122,11 @@ def run(res, tier):
         if not (m["residual"] == m["residual"]) or not (m["sE"] == m["sE"]):
             res.violate(key + "/non-finite", case, str(m), replay=rp)
             continue
-        if m["stationarity"] > 2e-3:
-            # not stationary within the horizon: the statement does not apply (e.g. above threshold); reported in the evidence, not a violation
+        if not (m["stationarity"] <= 2e-3):
+            # every case of the lattice is a weak impedance far below threshold (D <= 1) with damping on: relaxation within 10 damping times is
+            # what "after relaxation from any start" presupposes (unchanged tree: all cases stationary to 5e-4). A run that does not settle is reported.
             res.coverage.setdefault("not_stationary_cases", []).append(case)
+            res.violate(key + "/not-stationary", case, "profile still changes by %.3g of its peak between the last records after 10 damping times (energy spread %.4f, residual %.3f)" % (m["stationarity"], m["sE"], m["residual"]), replay=rp)
             continue
         d = 12.0 / (n - 1)
         e1 = 2.0 / (td * steps)
